@@ -45,8 +45,8 @@ Definition push (cap : nat) (l : list nat) (x : nat) : list nat * option nat :=
 (** * State *)
 Inductive item :=
 | IParse (g st : nat)        (* renamed Parse + metadata (Arc<Parse>, hash) *)
-| IBind (g n : nat)          (* Bind renamed to PGCAT_g when it was buffered; metadata Some(n) *)
-| IDesc (g n : nat)
+| IBind (g st n : nat)       (* Bind renamed to PGCAT_g when it was buffered; metadata Some((n, Arc<Parse>, hash)) *)
+| IDesc (g st n : nat)
 | IExec
 | IClose (n : nat).
 
@@ -134,20 +134,22 @@ Fixpoint brun (K : cfg) (b : bstate) (ms : list bmsg) : bstate * list reply :=
   | m :: r => let '(b1, o1) := bstep K b m in let '(b2, o2) := brun K b1 r in (b2, o1 ++ o2)
   end.
 
-(** * Server::recv on a reply stream: '1' pops the registering queue, 'E' pops it and removes
-    the popped name from the LRU (server.rs:967-987, 1092-1094). *)
-Fixpoint recv (l q : list nat) (rs : list reply) : list nat * list nat :=
+(** * Server::recv on a reply stream: '1' pops the registering queue; 'E' drains it and removes
+    every drained name from the LRU (the backend skips the rest of the batch; fix f7eb935);
+    CommandComplete "DEALLOCATE ALL"/"DISCARD ALL" clears the LRU (fix b2fb22f). *)
+Fixpoint recv (K : cfg) (l q : list nat) (rs : list reply) : list nat * list nat :=
   match rs with
   | [] => (l, q)
-  | R1 :: r => recv l (tl q) r
-  | RErr :: r => match q with [] => recv l q r | x :: q' => recv (remove_nat x l) q' r end
-  | _ :: r => recv l q r
+  | R1 :: r => recv K l (tl q) r
+  | RErr :: r => recv K (fold_left (fun a x => remove_nat x a) q l) [] r
+  | RRow st :: r => match kind K st with DeallocAll => recv K [] q r | _ => recv K l q r end
+  | _ :: r => recv K l q r
   end.
 
 (** send [ms ++ [Sync]] to server [sv]'s backend now, read to ReadyForQuery *)
 Definition exchange (K : cfg) (sv : server) (ms : list bmsg) : server * list reply :=
   let '(b, rs) := brun K (mkB (btab sv) None false) (ms ++ [BSync]) in
-  let '(l, q) := recv (lru sv) (queue sv) rs in
+  let '(l, q) := recv K (lru sv) (queue sv) rs in
   (mkServer l q (b_tab b) (slog sv ++ ms ++ [BSync]), rs).
 
 (** * The pool cache: PreparedStatementCache::get_or_insert / promote *)
@@ -173,53 +175,48 @@ Definition register (K : cfg) (sv : server) (g st : nat) (should_send : bool) : 
   else
     let q := queue sv ++ [g] in
     let '(l, ev) := push (cs K) (lru sv) g in
-    let ms := (if should_send then [BParse g st] else []) ++ (match ev with Some e => [BClose e] | None => [] end) in
+    (* the Close of the evicted statement goes first (fix 43119ca): a failing Parse cannot make the backend skip it *)
+    let ms := (match ev with Some e => [BClose e] | None => [] end) ++ (if should_send then [BParse g st] else []) in
     let sv1 := mkServer l q (btab sv) (slog sv) in
     let sv2 := match ms with [] => sv1 | _ => fst (exchange K sv1 ms) end in
     (mkServer (touch (lru sv2) g) (queue sv2) (btab sv2) (slog sv2), mem g (lru sv2)).
 
-(** * The 'S' arm: one pass over the buffered items (client.rs:1403-1498).
-    [acc] = (client map, server, pool lru, forwarded messages, synthesised replies).
-    [None] = the client task ends with an error ([?] on ensure_prepared_statement_is_on_server). *)
+(** * The 'S' arm: one pass over the buffered items.
+    [acc] = (client map, server, pool lru, forwarded messages, synthesised replies). *)
 Record sacc := mkAcc { a_map : list (nat * (nat * nat)); a_sv : server; a_pl : list (nat * (nat * nat));
                        a_fwd : list bmsg; a_syn : list reply }.
 
-Definition ensure (K : cfg) (a : sacc) (n : nat) : option sacc :=
-  match alookup n (a_map a) with
-  | None => None                                                           (* 1775-1780 *)
-  | Some (g, st) =>
-    let pl := ppromote (a_pl a) (hash K st) in
-    let '(sv, ok) := register K (a_sv a) g st true in
-    Some (mkAcc (if ok then a_map a else aremove n (a_map a)) sv pl (a_fwd a) (a_syn a))   (* 1762-1766 *)
-  end.
+(* ensure_prepared_statement_is_on_server(name, parse, hash): the statement is the one the name
+   referred to when the Bind/Describe was buffered (fix f56a2eb); on PreparedStatementError the
+   name is forgotten unless it has been prepared anew since (Arc::ptr_eq = same PGCAT name) *)
+Definition ensure (K : cfg) (a : sacc) (n g st : nat) : sacc :=
+  let pl := ppromote (a_pl a) (hash K st) in
+  let '(sv, ok) := register K (a_sv a) g st true in
+  let m := if ok then a_map a else
+             match alookup n (a_map a) with
+             | Some (g', _) => if g' =? g then aremove n (a_map a) else a_map a
+             | None => a_map a end in
+  mkAcc m sv pl (a_fwd a) (a_syn a).
 
-Definition sitem (K : cfg) (a : sacc) (it : item) : option sacc :=
+Definition sitem (K : cfg) (a : sacc) (it : item) : sacc :=
   match it with
   | IParse g st =>
-    if mem g (lru (a_sv a)) then                                          (* 1425 has_prepared_statement *)
-      Some (mkAcc (a_map a) (mkServer (touch (lru (a_sv a)) g) (queue (a_sv a)) (btab (a_sv a)) (slog (a_sv a)))
-                  (a_pl a) (a_fwd a) (a_syn a ++ [R1]))
+    if mem g (lru (a_sv a)) then                                          (* has_prepared_statement *)
+      mkAcc (a_map a) (mkServer (touch (lru (a_sv a)) g) (queue (a_sv a)) (btab (a_sv a)) (slog (a_sv a)))
+            (a_pl a) (a_fwd a) (a_syn a ++ [R1])
     else
       let pl := ppromote (a_pl a) (hash K st) in
       let '(sv, _) := register K (a_sv a) g st false in
-      Some (mkAcc (a_map a) sv pl (a_fwd a ++ [BParse g st]) (a_syn a))
-  | IBind g n => match ensure K a n with
-                 | Some a' => Some (mkAcc (a_map a') (a_sv a') (a_pl a') (a_fwd a' ++ [BBind g]) (a_syn a'))
-                 | None => None end
-  | IDesc g n => match ensure K a n with
-                 | Some a' => Some (mkAcc (a_map a') (a_sv a') (a_pl a') (a_fwd a' ++ [BDesc g]) (a_syn a'))
-                 | None => None end
-  | IExec => Some (mkAcc (a_map a) (a_sv a) (a_pl a) (a_fwd a ++ [BExec]) (a_syn a))
+      mkAcc (a_map a) sv pl (a_fwd a ++ [BParse g st]) (a_syn a)
+  | IBind g st n => let a' := ensure K a n g st in mkAcc (a_map a') (a_sv a') (a_pl a') (a_fwd a' ++ [BBind g]) (a_syn a')
+  | IDesc g st n => let a' := ensure K a n g st in mkAcc (a_map a') (a_sv a') (a_pl a') (a_fwd a' ++ [BDesc g]) (a_syn a')
+  | IExec => mkAcc (a_map a) (a_sv a) (a_pl a) (a_fwd a ++ [BExec]) (a_syn a)
   | IClose n =>
-    if n =? 0 then Some (mkAcc (a_map a) (a_sv a) (a_pl a) (a_fwd a ++ [BCloseUnnamed]) (a_syn a))   (* anonymous: forwarded *)
-    else Some (mkAcc (aremove n (a_map a)) (a_sv a) (a_pl a) (a_fwd a) (a_syn a ++ [R3]))
+    if n =? 0 then mkAcc (a_map a) (a_sv a) (a_pl a) (a_fwd a ++ [BCloseUnnamed]) (a_syn a)   (* anonymous: forwarded *)
+    else mkAcc (a_map a) (a_sv a) (a_pl a) (a_fwd a) (a_syn a ++ [R3])     (* the name was forgotten when the Close arrived *)
   end.
 
-Fixpoint sitems (K : cfg) (a : sacc) (its : list item) : sacc * bool :=
-  match its with
-  | [] => (a, true)
-  | it :: r => match sitem K a it with Some a' => sitems K a' r | None => (a, false) end
-  end.
+Definition sitems (K : cfg) (a : sacc) (its : list item) : sacc := fold_left (sitem K) its a.
 
 (** * Operations and observations *)
 Inductive op :=
@@ -243,43 +240,40 @@ Definition step (K : cfg) (w : world) (o : op) : world * list obs :=
     let cl := clients w c in
     if negb (alive cl) then (w, []) else
     match alookup n (cmap cl) with
-    | Some (g, _) => (set_client w c (mkClient (cmap cl) (cbuf cl ++ [IBind g n]) true), [])
-    | None => (set_client w c (mkClient (cmap cl) [] false), [Killed c [RErr]])           (* 1900-1912 *)
+    | Some (g, st) => (set_client w c (mkClient (cmap cl) (cbuf cl ++ [IBind g st n]) true), [])
+    | None => (set_client w c (mkClient (cmap cl) [] false), [Killed c [RErr; RZ]])           (* 1900-1912: error_response = ErrorResponse + ReadyForQuery, then the task ends *)
     end
   | Describe c n =>
     let cl := clients w c in
     if negb (alive cl) then (w, []) else
     match alookup n (cmap cl) with
-    | Some (g, _) => (set_client w c (mkClient (cmap cl) (cbuf cl ++ [IDesc g n]) true), [])
-    | None => (set_client w c (mkClient (cmap cl) [] false), [Killed c [RErr]])
+    | Some (g, st) => (set_client w c (mkClient (cmap cl) (cbuf cl ++ [IDesc g st n]) true), [])
+    | None => (set_client w c (mkClient (cmap cl) [] false), [Killed c [RErr; RZ]])
     end
   | Execute c =>
     let cl := clients w c in
     if negb (alive cl) then (w, []) else (set_client w c (mkClient (cmap cl) (cbuf cl ++ [IExec]) true), [])
   | Close c n =>
     let cl := clients w c in
-    if negb (alive cl) then (w, []) else (set_client w c (mkClient (cmap cl) (cbuf cl ++ [IClose n]) true), [])
+    if negb (alive cl) then (w, []) else
+    (* forget_closed_statement (fix 80b6794): the name leaves the map in message order *)
+    (set_client w c (mkClient (if n =? 0 then cmap cl else aremove n (cmap cl)) (cbuf cl ++ [IClose n]) true), [])
   | Sync c s =>
     let cl := clients w c in
     if negb (alive cl) then (w, []) else
-    let '(a, ok) := sitems K (mkAcc (cmap cl) (servers w s) (plru w) [] []) (cbuf cl) in
-    if ok then
-      match a_fwd a with
-      | [] =>   (* only the Sync is left: not sent, ReadyForQuery synthesised (1506-1511) *)
-        (mkWorld (upd (clients w) c (mkClient (a_map a) [] true)) (upd (servers w) s (a_sv a)) (a_pl a) (gdef w),
-         [Replies c (a_syn a ++ [RZ])])
-      | fwd =>
-        let '(sv, rs) := exchange K (a_sv a) fwd in
-        (mkWorld (upd (clients w) c (mkClient (a_map a) [] true)) (upd (servers w) s sv) (a_pl a) (gdef w),
-         [Replies c (a_syn a ++ rs)])
-      end
-    else
-      (* the task ends inside the 'S' arm: nothing buffered is sent, out-of-band effects stay *)
-      (mkWorld (upd (clients w) c (mkClient (a_map a) [] false)) (upd (servers w) s (a_sv a)) (a_pl a) (gdef w),
-       [Killed c []])
+    let a := sitems K (mkAcc (cmap cl) (servers w s) (plru w) [] []) (cbuf cl) in
+    match a_fwd a with
+    | [] =>   (* only the Sync is left: not sent, ReadyForQuery synthesised *)
+      (mkWorld (upd (clients w) c (mkClient (a_map a) [] true)) (upd (servers w) s (a_sv a)) (a_pl a) (gdef w),
+       [Replies c (a_syn a ++ [RZ])])
+    | fwd =>
+      let '(sv, rs) := exchange K (a_sv a) fwd in
+      (mkWorld (upd (clients w) c (mkClient (a_map a) [] true)) (upd (servers w) s sv) (a_pl a) (gdef w),
+       [Replies c (a_syn a ++ rs)])
+    end
   | Cleanup s =>
     let sv := servers w s in
-    (mkWorld (clients w) (upd (servers w) s (mkServer [] (queue sv) [] (slog sv ++ [BSync]))) (plru w) (gdef w), [])
+    (mkWorld (clients w) (upd (servers w) s (mkServer [] (queue sv) [] (slog sv))) (plru w) (gdef w), [])
   end.
 
 Fixpoint run (K : cfg) (w : world) (ops : list op) : world * list obs :=
@@ -376,26 +370,29 @@ Definition spec_obs (K : cfg) (ops : list op) : list nobs := map norm_obs (snd (
     (it runs the SPECIFICATION, never the model).  A batch = the ops of one client between
     two Syncs.  Within a batch:
       (G1) every statement parsed is [Good] and nothing the batch can execute is not [Good];
-      (G2) a name is (re)defined by Parse only before the batch mentions it in any other way;
-      (G3) Bind/Describe name a statement that exists at that point, Execute follows a Bind;
-      (G4) Parse/Bind/Describe mention at most [cs] distinct names (nothing the batch needs is
-           evicted before the batch is sent; one statement may be bound any number of times).
+      (G3) Bind/Describe name a statement that exists at that point, Execute follows a Bind,
+           Close names a named statement;
+      (G4) the batch needs at most [cs] server-side statements: every Parse counts, a Bind or
+           Describe counts unless its name was already parsed/bound/described in the batch
+           and not closed since (one statement may be bound any number of times).
+    (The former clause G2 — a name re-Parsed only before other mentions — is gone since the
+    repairs 80b6794 and f56a2eb.)
     Each clause is necessary: see the [c08_gap_*] examples in Props.v. *)
-Fixpoint batch_ok (K : cfg) (tab : list (nat * nat)) (mentioned : list nat) (portal : bool) (budget : nat) (os : list op) : bool :=
+Fixpoint batch_ok (K : cfg) (tab : list (nat * nat)) (known : list nat) (portal : bool) (budget : nat) (os : list op) : bool :=
   match os with
   | [] => true
   | Parse _ n st :: r =>
-    match kind K st with Good => true | _ => false end && negb (mem n mentioned) && (0 <? budget) &&
-    batch_ok K (ainsert n st tab) (n :: mentioned) portal (budget - 1) r
+    match kind K st with Good => true | _ => false end && (0 <? budget) &&
+    batch_ok K (ainsert n st tab) (n :: known) portal (budget - 1) r
   | Bind _ n :: r =>
-    match alookup n tab with Some _ => true | None => false end && (mem n mentioned || (0 <? budget)) &&
-    batch_ok K tab (n :: mentioned) true (if mem n mentioned then budget else budget - 1) r
+    match alookup n tab with Some _ => true | None => false end && (mem n known || (0 <? budget)) &&
+    batch_ok K tab (n :: known) true (if mem n known then budget else budget - 1) r
   | Describe _ n :: r =>
-    match alookup n tab with Some _ => true | None => false end && (mem n mentioned || (0 <? budget)) &&
-    batch_ok K tab (n :: mentioned) portal (if mem n mentioned then budget else budget - 1) r
-  | Execute _ :: r => portal && batch_ok K tab mentioned portal budget r
-  | Close _ n :: r => negb (n =? 0) && batch_ok K (aremove n tab) (n :: mentioned) portal budget r
-  | _ :: r => batch_ok K tab mentioned portal budget r
+    match alookup n tab with Some _ => true | None => false end && (mem n known || (0 <? budget)) &&
+    batch_ok K tab (n :: known) portal (if mem n known then budget else budget - 1) r
+  | Execute _ :: r => portal && batch_ok K tab known portal budget r
+  | Close _ n :: r => negb (n =? 0) && batch_ok K (aremove n tab) (remove_nat n known) portal budget r
+  | _ :: r => batch_ok K tab known portal budget r
   end.
 
 Fixpoint guard_from (K : cfg) (S : spec_state) (ops : list op) : bool :=
